@@ -267,9 +267,9 @@ def run(chk):
         "AuthorizePreFetch of the first protected mutation root field (legacy mode); the run line records whether it was installed "
         "and how often it was consulted; limiter errors and per-fetch selective limiters are covered by the theorems only "
         "(validate_pre_fetch is stated for every limiter function); loader hooks (LoaderHooks.OnLoad) are not reachable through the engine",
-        "list-of-lists coverage: nested lists whose items need an entity fetch from another subgraph are not exercised -- the loader "
-        "never executes such a fetch (work/c14_nested_list_entity_fetch.md, C01 territory) and the operation is skipped as a "
-        "baseline divergence",
+        "list-of-lists coverage: entity fetches whose parents sit below a list of lists are exercised since repair 3202cc0; the "
+        "hand-written `grid` federation is StrictBaseline (clause baseline_agrees: its un-authorized gateway answer must equal the "
+        "monolith -- a C01 statement, evaluated here as the regression guard of that repair)",
         "out of the lab's reach: subscriptions (authorizeSubscriptionPreFetch and per-update authorization); @defer only on three "
         "hand-written operations (frames scanned for sentinels, deferred fetches gated; the incremental payloads are not merged and "
         "compared position by position); "
